@@ -4,6 +4,8 @@ package blobstore
 
 import (
 	"errors"
+	"runtime"
+	"sync"
 	"fmt"
 	"io"
 	"math/rand"
@@ -226,6 +228,10 @@ func run(c *eng.Ctx, mem bool) error {
 				c.W.Ev("Panic", "what", fmt.Sprint(r))
 			}
 		}()
+		if mem && t%5 == 4 {
+			concurrent(c, t, rng)
+			return
+		}
 		caps := []uint64{1, 3, 4, 8}
 		capv := caps[rng.Intn(len(caps))]
 		var s bs
@@ -432,4 +438,118 @@ func run(c *eng.Ctx, mem bool) error {
 		}
 	})
 	return nil
+}
+
+// concurrent: three goroutines on one memory.Store.  Every call is logged when issued ("call") and when it
+// returned ("ret"); records are totally ordered by the tracelog mutex, so a call record precedes the call and
+// a ret record follows it.  spec/store/MemHandlesConc.tla decides whether the history is linearizable.
+func concurrent(c *eng.Ctx, t int, rng *rand.Rand) {
+	capv := uint64(2 + rng.Intn(3))
+	ms, err := memory.NewStore(&memory.Config{CapacityBytes: capv, GOMEMLIMITBytes: 8 << 30}, tally.NoopScope)
+	if err != nil {
+		panic(err)
+	}
+	keys := []string{"ka", "kb", "kc"}
+	kname := map[string]string{"ka": "k1", "kb": "k2", "kc": "k3"}
+	c.W.Reset(t, map[string]any{"cap": int(capv), "mem": true, "tracespec": "conc"})
+	type op struct {
+		name string
+		k    int
+		sz   int
+		slot int
+		n    int
+		off  int
+		p    []byte
+	}
+	// pre-generate the three programs from the seed (goroutine g owns handle slots 2g+1, 2g+2)
+	progs := make([][]op, 3)
+	for g := range progs {
+		nops := 6 + rng.Intn(6)
+		for i := 0; i < nops; i++ {
+			o := op{k: rng.Intn(len(keys)), slot: 2*g + 1 + rng.Intn(2)}
+			switch r := rng.Intn(10); {
+			case r < 3:
+				o.name, o.sz = "Create", 1+rng.Intn(2)
+			case r < 4:
+				o.name = "Open"
+			case r < 6:
+				o.name = "MarkComplete"
+			case r < 7:
+				o.name = "Delete"
+			case r < 8:
+				o.name, o.n, o.off = "HReadAt", 1+rng.Intn(2), rng.Intn(2)
+			case r < 9:
+				o.name, o.off, o.p = "HWriteAt", rng.Intn(2), []byte{byte(5 + rng.Intn(3))}
+			default:
+				o.name = "HSize"
+			}
+			progs[g] = append(progs[g], o)
+		}
+	}
+	var wg sync.WaitGroup
+	for g := range progs {
+		wg.Add(1)
+		go func(g int) {
+			defer wg.Done()
+			gn := fmt.Sprintf("g%d", g+1)
+			handles := map[int]rw{}
+			for _, o := range progs[g] {
+				k := keys[o.k]
+				call := func(kv ...any) {
+					c.W.Ev("call", append([]any{"g", gn, "op", o.name, "k", kname[k], "sz", o.sz, "c", 0, "h", o.slot, "n", o.n, "off", o.off, "p", ints(o.p)}, kv...)...)
+				}
+				ret := func(res string, b []byte, n int) { c.W.Ev("ret", "g", gn, "res", res, "bytes", ints(b), "n", n) }
+				switch o.name {
+				case "Create":
+					call()
+					f, err := ms.Create(k, uint64(o.sz))
+					if err == nil {
+						handles[o.slot] = f
+					}
+					ret(Classify(err), nil, 0)
+				case "Open":
+					call()
+					f, err := ms.Open(k)
+					if err == nil {
+						handles[o.slot] = f
+					}
+					ret(Classify(err), nil, 0)
+				case "MarkComplete":
+					call()
+					ret(Classify(ms.MarkComplete(k)), nil, 0)
+				case "Delete":
+					call()
+					ret(Classify(ms.Delete(k)), nil, 0)
+				case "HReadAt":
+					h, ok := handles[o.slot]
+					if !ok {
+						continue
+					}
+					call()
+					b := make([]byte, o.n)
+					nr, err := h.ReadAt(b, int64(o.off))
+					ret(Classify(err), b[:nr], 0)
+				case "HWriteAt":
+					h, ok := handles[o.slot]
+					if !ok {
+						continue
+					}
+					call()
+					nw, err := h.WriteAt(o.p, int64(o.off))
+					ret(Classify(err), nil, nw)
+				case "HSize":
+					h, ok := handles[o.slot]
+					if !ok {
+						continue
+					}
+					call()
+					ret("ok", nil, int(h.Size()))
+				}
+				if rng == nil {
+					runtime.Gosched()
+				}
+			}
+		}(g)
+	}
+	wg.Wait()
 }
